@@ -17,7 +17,7 @@ Modes:
 import base64
 import hashlib
 
-from sim.core import HarnessError
+from sim.core import SetupViolation, HarnessError
 from sim.ref_ws import SenderMonitor
 from sim.seams import SEAMS
 from worlds.ws import WS_MAGIC, Ep, WsWorld, exc_site, ws_classes
@@ -498,9 +498,36 @@ class World(WsWorld):
             else:
                 opts["perMessageCompressionAccept"] = lambda r: None
         fac.setProtocolOptions(**opts)
+        cfg["failed_retarget"] = ch.flag("failed-retarget", 0.2)
+        if cfg["failed_retarget"]:
+            # the application tried to point the factory at another URL, the library refused it: the factory still
+            # has its URL, and that is where the next connection must go
+            bad = ch.pick(("ws://other.example:9999/bad#fragment", "ws://other.example:99999/", "http://other.example/x"), "bad-url")
+            try:
+                fac.setSessionParameters(url=bad, origin=cfg["origin"], protocols=cfg["protocols"])
+                self.run.probe("retarget-accepted")
+            except Exception as e:  # noqa
+                self.run.probe("retarget-refused:%s" % type(e).__name__)
+            self.expect_url = expect_from_url(getattr(fac, "url", None)) or self.expect_url
         cfg["decoy"] = ch.flag("decoy-connection-first", 0.3)
         if cfg["decoy"]:
-            self.decoy_connection(aw, RecClient, url)
+            if ch.flag("decoy-is-a-pair", 0.5):
+                # a whole earlier connection in this process, client and server side, with compression offered,
+                # accepted (with parameters) and agreed
+                from autobahn.websocket.compress import (PerMessageDeflateOffer, PerMessageDeflateOfferAccept,
+                                                         PerMessageDeflateResponseAccept)
+                kw2 = self.fw.factory_kw(self.reactor)
+                dsf = aw.WebSocketServerFactory("ws://localhost:9000", protocols=["zzz", "b"], **kw2)
+                dsf.setProtocolOptions(openHandshakeTimeout=0, perMessageCompressionAccept=lambda offers: PerMessageDeflateOfferAccept(
+                    offers[0], request_no_context_takeover=False, request_max_window_bits=0, no_context_takeover=None, window_bits=None))
+                dcf = aw.WebSocketClientFactory("ws://localhost:9000", protocols=["zzz", "b"], **kw2)
+                dcf.setProtocolOptions(openHandshakeTimeout=0, perMessageCompressionOffers=[PerMessageDeflateOffer()],
+                                       perMessageCompressionAccept=lambda r: PerMessageDeflateResponseAccept(r))
+                _, RecServer_, RecClient_ = ws_classes()
+                dsf.protocol, dcf.protocol = RecServer_, RecClient_
+                self.decoy_pair(dcf, dsf, lambda dc, ds: ds.p.sendMessage(b"decoy", True))
+            else:
+                self.decoy_connection(aw, RecClient, url)
         e, peer = self.build_raw(fac, False)
         e.monitor = None
         self.start(e)
@@ -526,7 +553,7 @@ class World(WsWorld):
         self.fw.loop_drain(self)
         t.flush(None)
         if b"\r\n\r\n" not in bytes(peer.received):
-            raise HarnessError("decoy client sent no request")
+            raise SetupViolation("client-sent-no-request", "decoy connection")
         peer.send(self.server_response_bytes(bytes(peer.received),
                                              extra=b"Sec-WebSocket-Protocol: zzz\r\nSec-WebSocket-Extensions: permessage-deflate\r\n"))
         chunk = p2e.take(len(p2e.buf))
@@ -534,7 +561,7 @@ class World(WsWorld):
         self.fw.deliver(self, t, chunk)
         self.fw.loop_drain(self)
         if not any(ev[0] == "onOpen" for ev in d.events):
-            raise HarnessError("decoy connection did not open: %r" % (d.events,))
+            raise SetupViolation("valid-handshake-did-not-open-the-connection", "decoy: %r" % (d.events,))
         peer.fin()
         p2e.ended = True
         self.fw.peer_fin(self, t)
@@ -644,7 +671,8 @@ class World(WsWorld):
         elif mut == "ext-bad-param":
             hdr = [(k, v) for k, v in hdr if k != "Sec-WebSocket-Extensions"]
             hdr.append(("Sec-WebSocket-Extensions", "permessage-deflate; " + ch.pick(
-                ("server_max_window_bits=7", "server_max_window_bits=16", "client_max_window_bits=abc", "bogus_param",
+                ("server_max_window_bits=7", "server_max_window_bits=16", "server_max_window_bits=0", "client_max_window_bits=0",
+                 "client_max_window_bits=abc", "bogus_param",
                  "server_no_context_takeover=1", "client_no_context_takeover; client_no_context_takeover",
                  "server_max_window_bits=10; server_max_window_bits=10"), "badparam")))
             valid = False
@@ -910,6 +938,19 @@ class World(WsWorld):
 
 class LimitConn:
     pass
+
+
+def expect_from_url(url):
+    """(host, port, resource) a client request for this ws:// URL must carry (own parser, not the library's)."""
+    from urllib.parse import urlsplit
+    try:
+        u = urlsplit(url)
+        host = u.hostname if ":" not in (u.hostname or "") else "[%s]" % u.hostname
+        port = u.port or (443 if u.scheme == "wss" else 80)
+        resource = (u.path or "/") + ("?" + u.query if u.query else "")
+        return (host, port, resource)
+    except Exception:  # noqa
+        return ("<unparseable url %r>" % (url,), 0, "/")
 
 
 def valid_base(world, limit_hit):
